@@ -32,9 +32,16 @@ import (
 
 	"github.com/tsawler/tabula"
 	"github.com/tsawler/tabula/contentstream"
+	"github.com/tsawler/tabula/docx"
+	"github.com/tsawler/tabula/epubdoc"
+	"github.com/tsawler/tabula/htmldoc"
+	"github.com/tsawler/tabula/model"
+	"github.com/tsawler/tabula/odt"
+	"github.com/tsawler/tabula/pptx"
 	"github.com/tsawler/tabula/rag"
 	"github.com/tsawler/tabula/reader"
 	"github.com/tsawler/tabula/verifrt"
+	"github.com/tsawler/tabula/xlsx"
 	"verif/internal/harness"
 )
 
@@ -252,6 +259,120 @@ func sharedReaderOp(doc string) operation {
 	}}
 }
 
+// formatReaderOp is the Shared operation for the non-PDF formats: every ordered pair of views on ONE opened
+// reader of the format's own package (tabula's Extractor opens a fresh one per terminal call), the second
+// compared with the same view on a reader of its own.
+func formatReaderOp(doc string) operation {
+	type views struct {
+		text, md, rag func() (string, error)
+		docu          func() (*model.Document, error)
+		close         func()
+	}
+	ragOpts := rag.MarkdownOptions{HeadingLevelOffset: 1, MaxHeadingLevel: 3, IncludeTableOfContents: true, SectionSeparator: "\n\n---\n\n"}
+	open := func(path string) (*views, error) {
+		switch filepath.Ext(doc) {
+		case ".html":
+			r, err := htmldoc.Open(path)
+			if err != nil {
+				return nil, err
+			}
+			return &views{r.Text, r.Markdown, func() (string, error) { return r.MarkdownWithRAGOptions(htmldoc.DefaultExtractOptions(), ragOpts) }, r.Document, func() { r.Close() }}, nil
+		case ".docx":
+			r, err := docx.Open(path)
+			if err != nil {
+				return nil, err
+			}
+			return &views{r.Text, r.Markdown, func() (string, error) { return r.MarkdownWithRAGOptions(docx.ExtractOptions{}, ragOpts) }, r.Document, func() { r.Close() }}, nil
+		case ".odt":
+			r, err := odt.Open(path)
+			if err != nil {
+				return nil, err
+			}
+			return &views{r.Text, r.Markdown, func() (string, error) { return r.MarkdownWithRAGOptions(odt.ExtractOptions{}, ragOpts) }, r.Document, func() { r.Close() }}, nil
+		case ".xlsx":
+			r, err := xlsx.Open(path)
+			if err != nil {
+				return nil, err
+			}
+			return &views{r.Text, r.Markdown, func() (string, error) { return r.MarkdownWithRAGOptions(xlsx.ExtractOptions{}, ragOpts) }, r.Document, func() { r.Close() }}, nil
+		case ".pptx":
+			r, err := pptx.Open(path)
+			if err != nil {
+				return nil, err
+			}
+			return &views{r.Text, r.Markdown, func() (string, error) { return r.MarkdownWithRAGOptions(pptx.ExtractOptions{}, ragOpts) }, r.Document, func() { r.Close() }}, nil
+		case ".epub":
+			r, err := epubdoc.Open(path)
+			if err != nil {
+				return nil, err
+			}
+			return &views{r.Text, r.Markdown, func() (string, error) { return r.MarkdownWithRAGOptions(epubdoc.ExtractOptions{}, ragOpts) }, r.Document, func() { r.Close() }}, nil
+		}
+		return nil, fmt.Errorf("no reader for %s", doc)
+	}
+	names := []string{"Text", "Markdown", "MarkdownWithRAGOptions", "Document"}
+	call := func(v *views, k int) string {
+		return guard(func() string {
+			switch k {
+			case 0:
+				t, err := v.text()
+				return fmt.Sprintf("%q %v", t, err)
+			case 1:
+				t, err := v.md()
+				return fmt.Sprintf("%q %v", t, err)
+			case 2:
+				t, err := v.rag()
+				return fmt.Sprintf("%q %v", t, err)
+			}
+			d, err := v.docu()
+			if err != nil || d == nil {
+				return fmt.Sprintf("nil %v", err)
+			}
+			var b strings.Builder
+			fmt.Fprintf(&b, "pages=%d text=%q", d.PageCount(), d.ExtractText())
+			for _, h := range d.AllHeadings() {
+				fmt.Fprintf(&b, " H%d:%q", h.Level, h.Text)
+			}
+			for _, t := range d.TableOfContents() {
+				fmt.Fprintf(&b, " toc(%d,%d,%q)", t.Level, t.Page, t.Text)
+			}
+			return b.String()
+		})
+	}
+	return operation{doc + ":SharedFormatReader", func(dir string) string {
+		path := filepath.Join(dir, doc)
+		var out strings.Builder
+		alone := make([]string, len(names))
+		for k := range names {
+			v, err := open(path)
+			if err != nil {
+				return "open error: " + err.Error()
+			}
+			alone[k] = call(v, k)
+			v.close()
+			fmt.Fprintf(&out, "%s=%s;", names[k], h(alone[k]))
+		}
+		for i := range names {
+			for j := range names {
+				v, err := open(path)
+				if err != nil {
+					return "open error: " + err.Error()
+				}
+				first := call(v, i)
+				second := call(v, j)
+				v.close()
+				if first != alone[i] {
+					fmt.Fprintf(&out, "\n%s: %s alone gives %s on one reader and %s on another\n", repeatMarker, names[i], alone[i], first)
+				}
+				if second != alone[j] {
+					fmt.Fprintf(&out, "\n%s: %s after %s on one opened reader gives %s, alone it gives %s\n", sharedMarker, names[j], names[i], second, alone[j])
+				}
+			}
+		}
+		return out.String()
+	}}
+}
+
 func rawOp(name, src string) operation {
 	return operation{"raw:" + name, func(string) string {
 		ops, err := contentstream.NewParser([]byte(src)).Parse()
@@ -275,6 +396,7 @@ func operations() []operation {
 		"hf.pdf":       {"Text", "Text.xhf", "ToMarkdown"},
 		"samebase.pdf": {"Text"},
 		"hex.pdf":      {"Text"},
+		"rev2.pdf":     {"Text"},
 		"a.docx":       {"Text", "ToMarkdown", "Chunks.JSONL", "Chunks.CSV"},
 		"a.xlsx":       {"Text", "ToMarkdown", "Chunks.CSV"},
 		"a.pptx":       {"Text", "ToMarkdown", "Chunks.CSV"},
@@ -297,6 +419,9 @@ func operations() []operation {
 			if ok {
 				ops = append(ops, o)
 			}
+		}
+		if !strings.HasSuffix(d, ".pdf") {
+			ops = append(ops, formatReaderOp(d))
 		}
 		if strings.HasSuffix(d, ".pdf") {
 			ops = append(ops, readerTwiceOp(d))
